@@ -444,6 +444,17 @@ static void plan_inplace_mul(opplan_t* pl, rng_t* r, const env_t* e) {
 static void call_ip_reim_mul(const opplan_t* pl, void* const p[], const env_t* e) { (void)pl; reim_fftvec_mul(e->reim_mul, p[0], p[0], p[1]); }
 static void call_ip_reim_addmul(const opplan_t* pl, void* const p[], const env_t* e) { (void)pl; reim_fftvec_addmul(e->reim_addmul, p[0], p[1], p[0]); }
 static void call_ip_cplx_mul(const opplan_t* pl, void* const p[], const env_t* e) { (void)pl; cplx_fftvec_mul(e->cplx_mul, p[0], p[1], p[0]); }
+// the remaining aliasing patterns of the pointwise products, on the three layouts
+static void plan_inplace_mul4(opplan_t* pl, rng_t* r, const env_t* e) { if (e->m < 4) { pl->skip = 1; return; } plan_inplace_mul(pl, r, e); }
+static void plan_square(opplan_t* pl, rng_t* r, const env_t* e) { (void)r; B_RAW(pl, R_INOUT, F_DBL, 4, 2 * e->m * 8, 8); }
+static void plan_square4(opplan_t* pl, rng_t* r, const env_t* e) { if (e->m < 4) { pl->skip = 1; return; } plan_square(pl, r, e); }
+static void call_ip_reim_mul_b(const opplan_t* pl, void* const p[], const env_t* e) { (void)pl; reim_fftvec_mul(e->reim_mul, p[0], p[1], p[0]); }
+static void call_ip_reim_mul_ab(const opplan_t* pl, void* const p[], const env_t* e) { (void)pl; reim_fftvec_mul(e->reim_mul, p[0], p[0], p[0]); }
+static void call_ip_cplx_mul_a(const opplan_t* pl, void* const p[], const env_t* e) { (void)pl; cplx_fftvec_mul(e->cplx_mul, p[0], p[0], p[1]); }
+static void call_ip_cplx_mul_ab(const opplan_t* pl, void* const p[], const env_t* e) { (void)pl; cplx_fftvec_mul(e->cplx_mul, p[0], p[0], p[0]); }
+static void call_ip_r4_mul_a(const opplan_t* pl, void* const p[], const env_t* e) { (void)pl; reim4_fftvec_mul(e->r4_mul, p[0], p[0], p[1]); }
+static void call_ip_r4_mul_b(const opplan_t* pl, void* const p[], const env_t* e) { (void)pl; reim4_fftvec_mul(e->r4_mul, p[0], p[1], p[0]); }
+static void call_ip_r4_mul_ab(const opplan_t* pl, void* const p[], const env_t* e) { (void)pl; reim4_fftvec_mul(e->r4_mul, p[0], p[0], p[0]); }
 
 // --- dft / idft (both module types)
 static uint64_t dft_bytes(const env_t* e, int ntt, uint64_t size) { return ntt ? e->N * 32 * size : bytes_of_vec_znx_dft(e->fft64, size); }
@@ -1055,6 +1066,10 @@ const opdef_t OPS[] = {
     {"vec_znx_idft(res==a_dft)", OPF_FFT64, plan_inplace_idft, call_ip_idft},
     {"reim_fftvec_mul(r==a)", OPF_TABLE, plan_inplace_mul, call_ip_reim_mul}, {"reim_fftvec_addmul(r==b)", OPF_TABLE, plan_inplace_mul, call_ip_reim_addmul},
     {"cplx_fftvec_mul(r==b)", OPF_TABLE, plan_inplace_mul, call_ip_cplx_mul},
+    {"reim_fftvec_mul(r==b)", OPF_TABLE, plan_inplace_mul, call_ip_reim_mul_b}, {"reim_fftvec_mul(r==a==b)", OPF_TABLE, plan_square, call_ip_reim_mul_ab},
+    {"cplx_fftvec_mul(r==a)", OPF_TABLE, plan_inplace_mul, call_ip_cplx_mul_a}, {"cplx_fftvec_mul(r==a==b)", OPF_TABLE, plan_square, call_ip_cplx_mul_ab},
+    {"reim4_fftvec_mul(r==a)", OPF_TABLE, plan_inplace_mul4, call_ip_r4_mul_a}, {"reim4_fftvec_mul(r==b)", OPF_TABLE, plan_inplace_mul4, call_ip_r4_mul_b},
+    {"reim4_fftvec_mul(r==a==b)", OPF_TABLE, plan_square4, call_ip_r4_mul_ab},
     {"vec_znx_dft", OPF_FFT64, plan_dft, call_dft}, {"vec_znx_dft@ntt120", OPF_NTT120, plan_dft_ntt, call_dft},
     {"vec_znx_idft", OPF_FFT64, plan_idft, call_idft}, {"vec_znx_idft@ntt120", OPF_NTT120, plan_idft_ntt, call_idft},
     {"vec_znx_idft_tmp_a", OPF_FFT64, plan_idft_tmp_a, call_idft_tmp_a}, {"vec_znx_idft_tmp_a@ntt120", OPF_NTT120, plan_idft_tmp_a_ntt, call_idft_tmp_a},
